@@ -736,3 +736,38 @@ def whole_value_reaches(body, seeds, targets=(0,)):
         if ta.closure(start) & set(targets):
             return True, fields
     return False, fields
+
+
+def must_be_copy_of(body, local, roots, _seen=None):
+    """Is `local` on *every* path a plain copy/move/reference of one of `roots` (all of its definitions, transitively)?
+    A call result, an aggregate or a second definition from elsewhere makes it False."""
+    if local in roots:
+        return True
+    _seen = _seen or set()
+    if local in _seen:
+        return True
+    _seen = _seen | {local}
+    defs = []
+    for b in body.blocks:
+        if b["cleanup"]:
+            continue
+        for st in b["stmts"]:
+            if st["d"] == [local]:
+                defs.append(("s", st["rv"]))
+        t = b["term"]
+        if t["k"] == "call" and t.get("d") == [local]:
+            defs.append(("c", t))
+    if not defs:
+        return False
+    for k, d in defs:
+        if k == "c":
+            return False
+        if d["k"] in ("use", "cast") and d["a"][0] in ("cp", "mv") and all(e == "*" for e in d["a"][1][1:]):
+            if not must_be_copy_of(body, d["a"][1][0], roots, _seen):
+                return False
+        elif d["k"] == "ref" and all(e == "*" for e in d["p"][1:]):
+            if not must_be_copy_of(body, d["p"][0], roots, _seen):
+                return False
+        else:
+            return False
+    return True
